@@ -7,6 +7,7 @@ import (
 	"fmt"
 	"net"
 	"os"
+	"strings"
 	"sync"
 	"syscall"
 	"time"
@@ -118,6 +119,13 @@ func drvPeer(args []string) int {
 	defer f.Close()
 	rd := bufio.NewReaderSize(f, 1<<20)
 	n := 0
+	// schedule perturbation: the goroutine that brings a session up is slow right after it has started the
+	// session's reader (the points named *.reader), so that an early disconnect is seen by the reader first
+	erpc.VerifPoint = func(point string, sess erpc.Session, a, b int64) {
+		if strings.HasSuffix(point, ".reader") {
+			time.Sleep(time.Millisecond)
+		}
+	}
 	for {
 		line, err := rd.ReadBytes('\n')
 		if len(line) > 1 {
